@@ -2,7 +2,7 @@
    (gen/Gen_Search.v) equals the hand-written reference model (model/SearchDefs.v),
    for every value type, every assignment record, every parameter record. *)
 From Coq Require Import List Arith ZArith Bool Lia PrimFloat.
-From MM Require Import lib.ListSet lib.Combi lib.Values model.Heap model.Elig model.SearchParams
+From MM Require Import lib.ListExtra lib.ListSet lib.Combi lib.Values model.Heap model.Elig model.SearchParams
   model.SearchDefs gen.Gen_Search.
 Import ListNotations.
 Open Scope Z_scope.
@@ -25,9 +25,6 @@ Proof.
   revert acc; induction l as [|x l IH]; intro acc; cbn; [rewrite app_nil_r; reflexivity|].
   rewrite IH. destruct (p x); [rewrite <- app_assoc|]; reflexivity.
 Qed.
-Lemma fold_ext {A B} (f g : A -> B -> A) l acc :
-  (forall a b, f a b = g a b) -> fold_left f l acc = fold_left g l acc.
-Proof. intro H. revert acc; induction l as [|x l IH]; intro acc; cbn; [reflexivity|]. rewrite H. apply IH. Qed.
 Lemma fold_add (g : Z -> Z) l acc : fold_left (fun a i => a + g i) l acc = acc + zsum l g.
 Proof.
   unfold zsum. revert acc. induction l as [|x l IH]; intro acc; cbn [fold_left]; [lia|].
